@@ -318,6 +318,42 @@ def gen_imports(rng, tier):
     return cases
 
 
+def gen_imports_smallvs(rng, tier):
+    """clean directories whose tables are STORED beyond a small VirtualSize (0 < VirtualSize < SizeOfRawData, also 0):
+    a file view resolves an rva through max(VirtualSize, SizeOfRawData), so names, hint/name entries, thunk tables and
+    the IAT in the raw tail are all reported (round-5 change C09-r5-3: the loader's rule `VirtualSize or else
+    SizeOfRawData` in range_file; the exports stream had this shape since round 4, the imports stream did not)"""
+    cases = []
+    n = 6 if tier == "quick" else 120
+    for i in range(n):
+        for bits in (32, 64):
+            dlls = rand_dlls(rng) or [Dll(b"k.dll", [("n", 3, b"Fn"), ("o", 9)])]
+            if not any(d.imports for d in dlls):
+                dlls[-1].imports = [("n", 1, b"g"), ("o", 2)]
+            order = rng.choice(["sitd", "sidt", "stid"])
+            blob, info = lay_out(rng_clone(rng), bits, 0x1000, dlls, order=order, pad_front=8)
+            pe, va = base_pe(rng, bits, len(blob))
+            blob, info = lay_out(rng, bits, va, dlls, order=order, pad_front=8)
+            sec = pe.sections[-1]
+            sec.data = bytes(blob)
+            sec.rs = len(blob)
+            sec.vs = [1, 8, 40, len(blob) // 2, len(blob) - 1, 0][i % 6]
+            pe.dirs[1] = (va + info["desc_off"], 20 * (len(dlls) + 1))
+            pe.dirs[12] = (va + info["iat_off"], info["iat_size"])
+            data = pe.build()
+            exp = expectation(bits, dlls, info, va)
+            flag = 1 << (bits - 1)
+            ent = []
+            for d, di in zip(dlls, info["dll"]):
+                for imp, hn in zip(d.imports, di["hn"]):
+                    ent.append("%d>%s" % ((flag | imp[1], "o%d" % imp[1]) if imp[0] == "o" else (va + hn, "n%d:%s" % (imp[1], imp[2].hex() or "-"))))
+                ent.append("0>!Null")
+            expiat = "/".join(ent) or "-"
+            kf = "f%d" % bits
+            cases.append([img_line(rng, data, rng.choice([0, 8]), None), "from_bytes " + kf] + ops_for(rng, [kf, "wf"], exp, expiat))
+    return cases
+
+
 def gen_imports_corpus(rng, tier):
     """the repository's own binaries (file, and mapped by load-free reading as a view where possible)"""
     cases = []
